@@ -211,7 +211,7 @@ def gen_script(rng, logic=None, incremental=False, options=(), produce_models=Tr
         return out
 
     if not incremental:
-        for _ in range(nassert or rng.randint(2, 7)):
+        for _ in range(nassert or rng.choice([2, 3, 4, 5, 6, 7, 8, 10, 12])):
             lines.append(one_assert())
         lines.append("(check-sat)")
         ncheck = 1
